@@ -1,14 +1,18 @@
 pub mod common;
 
 pub mod c01;
+pub mod c05;
 pub mod c07;
+pub mod c10;
 
 use crate::util::Ctx;
 
 pub fn dispatch(ctx: &mut Ctx) -> bool {
     match ctx.prop.as_str() {
         "C01" => c01::run(ctx),
+        "C05" => c05::run(ctx),
         "C07" => c07::run(ctx),
+        "C10" => c10::run(ctx),
         _ => return false,
     }
     true
